@@ -132,6 +132,9 @@ func jsrTok(tok string) bool {
 // route function directly)
 var withFilter bool
 
+// dynamicTables: WebServices are built with dynamic routes enabled (routes change after registration)
+var dynamicTables bool
+
 func buildContainer(t tableCase, router string, order [][2]int, cell **obsCell) (c *restful.Container, addPanic string) {
 	defer func() {
 		if pv := recover(); pv != nil {
@@ -162,6 +165,7 @@ func buildContainer(t tableCase, router string, order [][2]int, cell **obsCell) 
 		if !ok {
 			ws = new(restful.WebService)
 			ws.Path(t.Services[wi].Root)
+			ws.SetDynamicRoutes(dynamicTables)
 			if len(t.Services[wi].WProd) > 0 {
 				ws.Produces(t.Services[wi].WProd...)
 			}
